@@ -129,9 +129,9 @@ macro_rules! byron_rel {
             let slot = any_slot();
             kani::assume(slot < g.shelley_known_slot);
             let (epoch, sub) = g.absolute_slot_to_relative(slot);
-            kani::cover!(epoch >= 1, "a Byron slot beyond the first epoch");
             assert!(sub < byron_len(&g), "sub-slot below the Byron epoch length in slots");
             assert!(g.relative_slot_to_absolute(epoch, sub) == slot, "relative->absolute inverts absolute->relative (Byron)");
+            kani::cover!(epoch >= 1, "a Byron slot beyond the first epoch");
             core::mem::forget(g);
         }
     };
@@ -295,8 +295,8 @@ macro_rules! boundary_wc_step {
             let k = g.shelley_known_slot;
             let t_last = g.slot_to_wallclock(k - 1);
             let t_first = g.slot_to_wallclock(k);
-            kani::cover!(k > 0, "there is a Byron era");
             assert!(t_first == t_last + g.byron_slot_length as u64, "wall clock continuous at the Shelley boundary (last Byron slot lasts one Byron slot length)");
+            kani::cover!(k > 0, "there is a Byron era");
             core::mem::forget(g);
         }
     };
@@ -317,8 +317,8 @@ macro_rules! boundary_wc_mono {
             let s1 = any_slot();
             let s2 = any_slot();
             kani::assume(s1 < k && k <= s2);
-            kani::cover!(s1 + 1 < k && s2 > k, "pair straddling the boundary");
             assert!(g.slot_to_wallclock(s1) < g.slot_to_wallclock(s2), "wall clock strictly increasing across the boundary");
+            kani::cover!(s1 + 1 < k && s2 > k, "pair straddling the boundary");
             core::mem::forget(g);
         }
     };
